@@ -91,3 +91,91 @@ Print Assumptions C12_count_optimal_iff_square.
 (* non-vacuity: the hypotheses are met by concrete non-trivial arguments *)
 Example C12_nonvacuous : (0 <= 5 /\ - 2 <= 1 <= 2)%Z /\ (0 <= 2)%R.
 Proof. split; [split; [|split]; discriminate | apply Rlt_le, Rlt_0_2]. Qed.
+
+(* definedness: on the documented domain (radius, volume, surface >= 0; curvature: radius > 0) no generated conversion
+   divides by zero or takes a root / non-integer power of a negative number.  `conversions_defined` is the conjunction
+   of the obligations generated from the text of Gen_spherical.v / Gen_droplet_basic.v (Gen/Gen_spherical_def.v). *)
+From PD Require Import Gen.Gen_spherical_def.
+Theorem C12_conversions_defined : conversions_defined.
+Proof. exact conversions_defined_holds. Qed.
+Print Assumptions C12_conversions_defined.
+
+(* ------------------------------------------------------------------------------------------------------------
+   Floating-point layer (Proofs/C12Float.v, Proofs/C12Flocq.v).  Gen_spherical_fp holds the SAME expression trees
+   as Gen_spherical with every arithmetic node rounded (rnd: one correctly rounded operation, rnd_pow: the library
+   pow).  std_model u kp rnd rnd_pow: 0 <= u <= 2^-52, 0 <= kp <= 8, |rnd x - x| <= u |x|, |rnd_pow x - x| <= kp u |x|
+   for all x (the standard model; for binary64 it holds with u = 2^-53 while no intermediate result leaves the
+   normal range [2^-1022, 2^1024): that restriction is not part of the theorems, see C12_fp_model_binary64).
+   rel_err K u exact computed: |computed - exact| <= K * u * |exact|. *)
+From PD Require Import Gen.Gen_spherical_fp Proofs.C12Float Proofs.C12Flocq.
+Local Open Scope R_scope.
+
+Theorem C12_fp_conversions : forall u kp rnd rnd_pow, std_model u kp rnd rnd_pow -> forall x, 0 <= x ->
+  (rel_err 1 u (vfr_scalar_1 x) (vfr_fp_1 rnd rnd_pow x) /\
+   rel_err (3 + 1 / 1000) u (vfr_scalar_2 x) (vfr_fp_2 rnd rnd_pow x) /\
+   rel_err (4 + kp + 1 / 1000) u (vfr_scalar_3 x) (vfr_fp_3 rnd rnd_pow x)) /\
+  (rel_err 1 u (rfv_scalar_1 x) (rfv_fp_1 rnd rnd_pow x) /\
+   rel_err (2 + 1 / 1000) u (rfv_scalar_2 x) (rfv_fp_2 rnd rnd_pow x)) /\
+  (rel_err 0 u (sfr_scalar_1 x) (sfr_fp_1 rnd rnd_pow x) /\
+   rel_err (3 + 1 / 1000) u (sfr_scalar_2 x) (sfr_fp_2 rnd rnd_pow x) /\
+   rel_err (4 + 1 / 1000) u (sfr_scalar_3 x) (sfr_fp_3 rnd rnd_pow x)) /\
+  (rel_err (3 + 1 / 1000) u (rfs_scalar_2 x) (rfs_fp_2 rnd rnd_pow x) /\
+   rel_err (5 / 2 + 1 / 1000) u (rfs_scalar_3 x) (rfs_fp_3 rnd rnd_pow x)).
+Proof. exact fp_conversions. Qed.
+Print Assumptions C12_fp_conversions.
+
+(* radius_from_volume in 3 dimensions is pow(3V/(4 pi), fl(1/3)): the rounded exponent alone contributes
+   |ln (exact radius)| * u, so the constant depends on L >= |ln (exact radius)| *)
+Theorem C12_fp_conversion_cbrt : forall u kp rnd rnd_pow L, std_model u kp rnd rnd_pow -> 0 <= L <= 710 ->
+  forall v, 0 < v -> Rabs (ln (rfv_scalar_3 v)) <= L ->
+  rel_err (K_rfv3 kp L) u (rfv_scalar_3 v) (rfv_fp_3 rnd rnd_pow v).
+Proof. exact fp_conversion_cbrt. Qed.
+Print Assumptions C12_fp_conversion_cbrt.
+
+Theorem C12_fp_round_trips : forall u kp rnd rnd_pow, std_model u kp rnd rnd_pow -> forall x, 0 <= x ->
+  (rel_err (2 + 1 / 100) u x (rfv_fp_1 rnd rnd_pow (vfr_fp_1 rnd rnd_pow x)) /\
+   rel_err (7 / 2 + 1 / 100) u x (rfv_fp_2 rnd rnd_pow (vfr_fp_2 rnd rnd_pow x))) /\
+  (rel_err (2 + 1 / 100) u x (vfr_fp_1 rnd rnd_pow (rfv_fp_1 rnd rnd_pow x)) /\
+   rel_err (7 + 1 / 100) u x (vfr_fp_2 rnd rnd_pow (rfv_fp_2 rnd rnd_pow x))) /\
+  (rel_err (6 + 1 / 100) u x (rfs_fp_2 rnd rnd_pow (sfr_fp_2 rnd rnd_pow x)) /\
+   rel_err (9 / 2 + 1 / 100) u x (rfs_fp_3 rnd rnd_pow (sfr_fp_3 rnd rnd_pow x))) /\
+  (rel_err (6 + 1 / 100) u x (sfr_fp_2 rnd rnd_pow (rfs_fp_2 rnd rnd_pow x)) /\
+   rel_err (9 + 1 / 100) u x (sfr_fp_3 rnd rnd_pow (rfs_fp_3 rnd rnd_pow x))).
+Proof. exact fp_round_trips. Qed.
+Print Assumptions C12_fp_round_trips.
+
+Theorem C12_fp_round_trips_3 : forall u kp rnd rnd_pow L, std_model u kp rnd rnd_pow -> 0 <= L <= 710 ->
+  (forall r, 0 < r -> Rabs (ln r) <= L ->
+     rel_err (K_rv3 kp L) u r (rfv_fp_3 rnd rnd_pow (vfr_fp_3 rnd rnd_pow r))) /\
+  (forall v, 0 < v -> Rabs (ln (rfv_scalar_3 v)) <= L ->
+     rel_err (K_vr3 kp L) u v (vfr_fp_3 rnd rnd_pow (rfv_fp_3 rnd rnd_pow v))).
+Proof. exact fp_round_trips_3. Qed.
+Print Assumptions C12_fp_round_trips_3.
+
+(* the three L-dependent constants for a pow accurate to one unit in the last place (kp = 2), and L = 35 covers
+   radii between 1e-15 and 1e15 (30 orders of magnitude) *)
+Theorem C12_fp_constants :
+  (forall L, 0 <= L <= 710 ->
+     K_rfv3 2 L <= L + 10 / 3 + 1 / 1000 /\ K_rv3 2 L <= L + 16 / 3 + 1 / 100 /\ K_vr3 2 L <= 3 * L + 16 + 1 / 100) /\
+  (forall r, / 10 ^ 15 <= r <= 10 ^ 15 -> Rabs (ln r) <= 35).
+Proof.
+  split; [|exact ln_30_orders].
+  intros L HL. exact (conj (proj2 (K_rfv3_le L HL)) (conj (K_rv3_le L HL) (K_vr3_le L HL))).
+Qed.
+Print Assumptions C12_fp_constants.
+
+(* the premise is met by binary64 arithmetic (Flocq): 53-bit round-to-nearest-even has u = 2^-53, and binary64
+   rounding is that rounding on the normal range *)
+Theorem C12_fp_model_binary64 :
+  std_model u64 1 rnd53 rnd53 /\
+  (forall pw, (forall x, Rabs (pw x - x) <= 2 * u64 * Rabs x) -> std_model u64 2 rnd53 pw) /\
+  (forall x, Flocq.Core.Raux.bpow Flocq.Core.Zaux.radix2 (-1022) <= Rabs x ->
+     rnd64 x = rnd53 x /\ Rabs (rnd64 x - x) <= u64 * Rabs x).
+Proof.
+  exact (conj std_model_binary64 (conj std_model_binary64_pow_1ulp
+    (fun x H => conj (binary64_is_FLX_in_normal_range x H) (rnd64_rel x H)))).
+Qed.
+Print Assumptions C12_fp_model_binary64.
+
+Example C12_fp_nonvacuous : std_model u64 1 rnd53 rnd53 /\ (0 <= 2 /\ 0 < 2 /\ 0 <= 35 <= 710).
+Proof. split; [exact std_model_binary64|]. repeat split; apply Rlt_le || idtac; try apply Rlt_0_2; Lra.lra. Qed.
